@@ -49,6 +49,9 @@ def jobs(tier):
         # sell-all twin
         for code in ("BB", "BI", "BS", "BBS", "BIS", "BSB"):
             add(code, {"2020": m}, sell_all=True)
+        # sheet rows whose numbers have different digit counts (9, 10, 100): equal instants are disambiguated by the row number
+        for code in ("BBS", "BIS", "BBB"):
+            add(code + "S" if code == "BBB" else code, {"2020": m}, rows=[9, 10, 100, 101])
     # year-over-year method changes: all ordered pairs of distinct methods
     for m1 in METHODS:
         for m2 in METHODS:
@@ -97,7 +100,7 @@ def weight(spec):
 
 
 def describe(spec):
-    return "%s %s%s%s" % (spec["code"], ",".join("%s:%s" % kv for kv in sorted(spec["schedule"].items())), " tz" if spec["tz"] else "", " +sell-all" if spec["sell_all"] else "")
+    return "%s %s%s%s%s" % (spec["code"], ",".join("%s:%s" % kv for kv in sorted(spec["schedule"].items())), " tz" if spec["tz"] else "", " +sell-all" if spec["sell_all"] else "", " rows=9,10,100" if spec.get("rows") else "")
 
 
 def run(S, spec):
@@ -108,6 +111,9 @@ def run(S, spec):
     slots = slots_of(spec["code"])
     if spec["sell_all"]:
         slots = slots + slots_of("S")
+    if spec.get("rows"):
+        for s_, r_ in zip(slots, spec["rows"]):
+            s_["row"] = r_
     h = Hist(S, slots, years, tz=spec["tz"])
     n = len(slots)
     lots = [i for i in range(n) if h.is_lot(i)]
